@@ -157,6 +157,22 @@ func (s *V2Sessionless) buildAndSendPayload(ctx context.Context, p ipmi.Payload)
 		s.v2SessionLayer.LayerPayload(), gopacket.NilDecodeFeedback)
 }
 
+// validateResponseTo ensures a received message is the response to the request
+// we sent, rather than a request, or the response to another command, e.g. the
+// late response to a command that has since been retransmitted. This relies on
+// the BMC echoing the network function (with the response bit set), command and
+// any defining body code or enterprise number, which is required by the spec.
+func validateResponseTo(req, rsp *ipmi.Operation) error {
+	if rsp.Function != req.Function|1 ||
+		rsp.Command != req.Command ||
+		rsp.Body != req.Body ||
+		rsp.Enterprise != req.Enterprise {
+		return fmt.Errorf("received message (%v, command %#x) is not a response to the request (%v, command %#x)",
+			rsp.Function, uint8(rsp.Command), req.Function, uint8(req.Command))
+	}
+	return nil
+}
+
 // saves having to write two SerializeLayers calls in SendCommand
 func serializableLayerOrEmpty(s gopacket.SerializableLayer) gopacket.SerializableLayer {
 	if s == nil {
@@ -252,6 +268,9 @@ func (s *V2Sessionless) buildAndSendCommand(ctx context.Context, c ipmi.Command)
 		// here)
 		types := layerexts.DecodedTypes(s.layers)
 		if err := types.InnermostEquals(ipmi.LayerTypeMessage); err != nil {
+			return err
+		}
+		if err := validateResponseTo(c.Operation(), &s.messageLayer.Operation); err != nil {
 			return err
 		}
 
